@@ -1383,3 +1383,11 @@ Lemma old_map_check_refuted : ~ (forall inst evc, inst < 65536 -> evc < 65536 ->
 Proof. intros F. specialize (F 5 5). vm_compute in F. specialize (F eq_refl eq_refl). discriminate. Qed.
 Lemma old_phy_check_refuted : ~ (forall inst evc, inst < 65536 -> evc < 65536 -> old_phy_check inst evc = negb (reachable inst evc)).
 Proof. intros F. specialize (F 4 5). vm_compute in F. specialize (F eq_refl eq_refl). discriminate. Qed.
+
+Theorem invariant_from_power_up c ops : Forall op_ok ops -> Inv c (lfinal c (linit c) ops).
+Proof. intros H. exact (invariant_all_traces c ops (linit c) (Inv_init c) H). Qed.
+
+Lemma waiting_state_example :
+  let s := lfinal cfg21 (linit cfg21) (pre21 ++ [Ev 0 [map_pdu 9]]) in
+  deferred s = Some (snd (map_pdu 9)) /\ dist s = 6 /\ in_connection s = true.
+Proof. vm_compute. repeat split; reflexivity. Qed.
